@@ -107,7 +107,7 @@ def view_directions(pts, observer, ceiling):
     return d_obs, d_raw, d_perp, d_left, rad, min(float(np.linalg.norm(vo)), float(np.linalg.norm(vc)))
 
 
-def expected_numbering(pts, observer, ceiling, base_margin=0.1):
+def expected_numbering(pts, observer, ceiling, base_margin=0.1, sequential=False):
     """The canonical numbering of a convex block (given in hexconv numbering, right-handed) seen from a viewpoint in
     general position, or None when the viewpoint is not in general position.
 
@@ -116,6 +116,11 @@ def expected_numbering(pts, observer, ceiling, base_margin=0.1):
     and right) singles out ONE side: every triangle of that side (either diagonal split) is better aligned with the
     direction than every triangle of every other side, by a margin that also absorbs the choice of the block's
     'centre' (centroid of corners vs. anything else inside the block).
+
+    sequential=True (strongly oblique views of boxes): front is singled out among all six sides, back among the five
+    others, top / bottom / left / right each among the sides no earlier role has taken - "the top side" of a box seen from
+    an edge is the one of the four sides around the front that faces the ceiling point, even where the ceiling direction
+    has a larger component along the front side's normal.
 
     -> (expected, margin) with expected[i] = base corner that must become corner i."""
     pts = np.asarray(pts, dtype=float)
@@ -141,11 +146,14 @@ def expected_numbering(pts, observer, ceiling, base_margin=0.1):
     assigned = {}
     for role, dirs in wanted.items():
         chosen = None
+        pool = [s for s in normals if not (sequential and s in assigned.values())]
+        if sequential and role in ("top", "bottom"):
+            dirs = dirs[1:]  # only the direction made perpendicular to the observer's is meaningful among the four sides around
         for d in dirs:
-            score_min = {s: min(float(np.dot(n, d)) for n in normals[s]) for s in normals}
-            score_max = {s: max(float(np.dot(n, d)) for n in normals[s]) for s in normals}
+            score_min = {s: min(float(np.dot(n, d)) for n in normals[s]) for s in pool}
+            score_max = {s: max(float(np.dot(n, d)) for n in normals[s]) for s in pool}
             best = max(score_min, key=lambda s: score_min[s])
-            rival = max(score_max[s] for s in normals if s != best)
+            rival = max([score_max[s] for s in pool if s != best] or [-1.0])
             if score_min[best] < rival + margin or score_min[best] <= margin:
                 return None
             if chosen is not None and chosen != best:
